@@ -225,7 +225,8 @@ def gen_model(rng, n_targets, option_pool=None, p_no_outputs=0.1, subdir=False, 
     m = WModel()
     n_src = rng.pick([1, 2, 2, 3, 4])
     for i in range(n_src):
-        m.sources.append((("d/" if subdir and rng.chance(0.3) else "") + f"s{i}.txt"))
+        stem = "dätä ü" if rng.chance(0.08) else "s"
+        m.sources.append((("d/" if subdir and rng.chance(0.3) else "") + f"{stem}{i}.txt"))
     produced = []
     for i in range(n_targets):
         t = new_target(m, rng, produced, option_pool, p_no_outputs, subdir, protect, templates, exotic_shapes)
